@@ -147,23 +147,33 @@ def run(repo, tier):
     # (e) expression nodes and parser
     eval_method_rule(rep, facts, 'Hi', 'relocate_hi', 'R7.eval')
     eval_method_rule(rep, facts, 'Lo', 'relocate_lo', 'R7.eval')
-    arms, _ = chain_outcomes(facts, 'parse_immediate', 'imm')
+    arms, els = chain_outcomes(facts, 'parse_immediate', 'imm')
     want = {'%hi': 'Hi', '%lo': 'Lo'}
     seen = {}
     pfn = facts.funcs['parse_immediate']
-    for key, test, outs in arms:
-        if key[0] == 'head' and key[1] in want:
-            for o in outs:
-                if o.kind != 'return':
-                    continue
-                paren = any("'('" in c[0] and c[1] for c in o.path.conds)
-                inner = ('imm', ('rest', 2, 1)) if paren else ('imm', ('rest', 1, 0))
-                ok = o.cls == want[key[1]] and o.args == [inner]
-                seen[(key[1], paren)] = ok
-                rep.check(ok, 'R7.parse', '{} {} form -> {}(parse_immediate(rest))'.format(key[1], 'parenthesised' if paren else 'bare', want[key[1]]),
-                          lambda o=o, key=key: Finding('R7.parse', 'parse_immediate', o.node,
-                                                       '{} is parsed into {}({}) instead of {} of the nested immediate'.format(key[1], o.cls, o.args, want[key[1]]),
-                                                       line=o.node.lineno))
+    from ..wiring import admits
+    every = [o for key, test, outs in arms for o in outs] + list(els or [])
+    for mod in want:
+        for o in every:
+            # the outcomes a line whose first operand token is this modifier can take (dispatch-independent: elif chain, merged
+            # arms with the class picked by a conditional expression, table lookup)
+            if o.kind != 'return' or o.cls not in ('Hi', 'Lo', 'Arithmetic', 'Position', 'Offset') or not admits(facts, o.path, mod):
+                continue
+            if o.cls in ('Arithmetic', 'Position', 'Offset') and any(f[0] == 'eq' and f[2] and f[1] != mod for f in o.path.head_facts):
+                continue
+            pf = o.path.paren_form() if hasattr(o.path, 'paren_form') else None
+            paren = pf if isinstance(pf, bool) else any("'('" in c[0] and c[1] for c in o.path.conds)
+            inner = ('imm', ('rest', 2, 1)) if paren else ('imm', ('rest', 1, 0))
+            positively = any(f[0] == 'eq' and f[2] and f[1] == mod for f in o.path.head_facts) or \
+                any(f[0] == 'in' and f[2] for f in o.path.head_facts)
+            if not positively and o.cls not in ('Hi', 'Lo'):
+                continue           # the catch-all arm: reached by a modifier only if no arm claims it (reported below)
+            ok = o.cls == want[mod] and o.args == [inner]
+            seen[(mod, paren)] = seen.get((mod, paren), True) and ok
+            rep.check(ok, 'R7.parse', '{} {} form -> {}(parse_immediate(rest))'.format(mod, 'parenthesised' if paren else 'bare', want[mod]),
+                      lambda o=o, mod=mod: Finding('R7.parse', 'parse_immediate', o.node,
+                                                   '{} is parsed into {}({}) instead of {} of the nested immediate'.format(mod, o.cls, o.args, want[mod]),
+                                                   line=o.node.lineno))
     for k in [('%hi', True), ('%hi', False), ('%lo', True), ('%lo', False)]:
         if k not in seen:
             rep.fail(Finding('R7.parse', 'parse_immediate', '{} {}'.format(*k), 'no parse path for {} ({} form)'.format(k[0], 'paren' if k[1] else 'bare'), line=pfn.lineno))
